@@ -92,6 +92,7 @@ type Oracles struct {
 	Gauges  bool // C20
 	Lower   bool // C13
 	Dir     bool // C07/C15: directory and /proc checks at the end
+	Durable bool // C06: after every successful round a copy of the directory must reopen to a prefix >= the store's
 }
 
 // Handle is an open snapshot / iterator held by the program.
@@ -149,6 +150,9 @@ type Runner struct {
 	// with the prefix the store exposes (-1 if unknown) and the round kind.
 	OnRound func(k int, kind string)
 
+	// StopFaultsAtReopen clears the fault plan when a reopen step starts.
+	StopFaultsAtReopen bool
+
 	// KeepOpen: leave everything open after Run (debugging tools).
 	KeepOpen bool
 
@@ -158,6 +162,7 @@ type Runner struct {
 
 	retained []retainedVal // C10: copying-Get results checked after close
 	baseErrs int
+	lastFired int // injected file faults seen at the last background-error check
 
 	preDirFiles []string
 }
@@ -334,6 +339,9 @@ func (r *Runner) doStep(st Step) bool {
 		if res == ResEnd {
 			r.afterRound(pre)
 		}
+		if res == ResFailed {
+			r.afterFailedRound()
+		}
 	case "resume":
 		if e.Coll == nil {
 			return true
@@ -472,8 +480,8 @@ func (r *Runner) drain() bool {
 		}
 		if pr == ResFailed {
 			i-- // injected failure: the round is retried
-			if r.E.BgErrCount() > 50 {
-				return r.watchdog("persister keeps failing")
+			if r.E.BgErrCount() > 400 {
+				r.Res.Inconclusive = "retry-limit: persister keeps failing"; return false
 			}
 		}
 		if e.D.Parked("merger") == "" {
@@ -507,6 +515,14 @@ func (r *Runner) unprovoked() bool {
 		r.baseErrs = n
 		if r.E.Lower != nil && len(r.E.Lower.FailPlan) > 0 && strings.Contains(r.E.LastBgErr(), ErrInjected.Error()) {
 			return false
+		}
+		if r.E.FS != nil {
+			if f := r.E.FS.FiredCount(); f > r.lastFired {
+				// provoked by an injected file fault
+				r.lastFired = f
+				r.cnt("faults.errors_surfaced", 1)
+				return false
+			}
 		}
 		r.viol("background", "unprovoked-background-error", errClass(r.E.LastBgErr()), r.E.LastBgErr())
 		return true
@@ -1111,11 +1127,85 @@ func (r *Runner) afterRound(pre storeCounters) {
 	}
 	r.storeK = k
 	r.cnt("store.prefix_checks", 1)
+	if r.O.Durable {
+		r.checkDurable(k)
+		if len(r.Res.Violations) > 0 {
+			return
+		}
+	}
 	if len(tree.Ch) > 0 && (kind == "full" || kind == "partial") {
 		r.cnt("store.compactions_with_children", 1)
 	}
 	if kind == "full" {
 		r.checkFullyCompacted()
+	}
+}
+
+// afterFailedRound runs after a persistence round that reported an error:
+// the store must keep exposing a prefix state no older than before.
+func (r *Runner) afterFailedRound() {
+	e := r.E
+	r.cnt("rounds.failed", 1)
+	if e.Store == nil || !r.O.Store {
+		return
+	}
+	k, _, ok := r.storePrefix()
+	if !ok {
+		return
+	}
+	if k < r.storeK {
+		r.viol("store", "store-went-backwards", "after-failed-round", fmt.Sprintf("after a failed round the store exposes prefix %d, before it exposed %d", k, r.storeK))
+		return
+	}
+	r.storeK = k
+	r.cnt("store.prefix_checks_after_failure", 1)
+}
+
+// checkDurable copies the store directory and reopens the copy: it must
+// open and show a prefix state at least as new as what the store exposes.
+func (r *Runner) checkDurable(k int) {
+	e := r.E
+	cp := e.Dir + ".copy"
+	os.RemoveAll(cp)
+	os.MkdirAll(cp, 0o755)
+	defer os.RemoveAll(cp)
+	for _, f := range DirFiles(e.Dir) {
+		b, err := os.ReadFile(e.Dir + "/" + f)
+		if err != nil {
+			continue // removed concurrently
+		}
+		os.WriteFile(cp+"/"+f, b, 0o600)
+	}
+	so := e.Cfg.StoreOptions()
+	so.CollectionOptions = e.Cfg.CollectionOptions()
+	so.CollectionOptions.ReadOnly = true
+	var t *model.Coll
+	err := Safe(func() error {
+		st, err := moss.OpenStore(cp, so)
+		if err != nil {
+			return err
+		}
+		defer st.Close()
+		s, err := st.Snapshot()
+		if err != nil {
+			return err
+		}
+		defer s.Close()
+		t, err = ReadTree(s)
+		return err
+	})
+	r.cnt("durable.copies_reopened", 1)
+	if err != nil {
+		r.viol("durable", "copy-not-openable", errClass(err.Error()), fmt.Sprintf("after a round that reported success (store at prefix %d) a copy of the directory cannot be opened/read: %v", k, err))
+		return
+	}
+	ks := e.World.Prefixes(t.Hash())
+	if len(ks) == 0 {
+		r.notPrefixViol("durable", "copy of the directory", t)
+		return
+	}
+	if ks[len(ks)-1] < k {
+		r.viol("durable", "copy-older-than-store", "", fmt.Sprintf("the store exposes prefix %d but a copy of its directory reopens to prefix %d", k, ks[len(ks)-1]))
 	}
 }
 
@@ -1324,6 +1414,10 @@ func (r *Runner) reopen(kind string) bool {
 		return true
 	}
 	e.Epoch++
+	if e.FS != nil && r.StopFaultsAtReopen {
+		// "once operations succeed again": no injected failure from here on.
+		e.FS.ClearFaults()
+	}
 	if e.Coll != nil {
 		switch kind {
 		case "caughtup":
